@@ -109,6 +109,7 @@ func searchReplace(c *bytecode.ReplaceCommand, filename string, reader *files.Re
 		// into memory since we will be writing over areas of text that
 		// we need to read from
 		replaceReader = files.ReaderFromFileToMemory(filename)
+		defer replaceReader.Close()
 		writer = files.WriterFromFile(filename)
 	case NOTHING:
 		writer = files.WriterFromMemory()
@@ -135,7 +136,6 @@ func searchReplace(c *bytecode.ReplaceCommand, filename string, reader *files.Re
 	}
 
 	writer.Close()
-	replaceReader.Close()
 
 	return replacedMatches
 }
